@@ -81,7 +81,7 @@ func New(opts ...ReaderOption) *Reader {
 	r := &Reader{
 		sniffer: &formats.Sniffer{},
 		Storage: storage.NewFileSystem(),
-		Options: defaultOptions,
+		Options: defaultOptions.clone(),
 	}
 
 	for _, opt := range opts {
@@ -159,7 +159,7 @@ func (r *Reader) detectFormat(rs io.ReadSeeker) (formats.Format, error) {
 // Retrieve reads a document from the configured storage backend using the
 // default options.
 func (r *Reader) Retrieve(id string) (*sbom.Document, error) {
-	return r.RetrieveWithOptions(id, defaultOptions)
+	return r.RetrieveWithOptions(id, r.Options)
 }
 
 // RetrieveWithOptions retrieves a document from the configured storage backend
